@@ -57,13 +57,14 @@ Inductive libfn :=
 | LFst | LSnd
 (* used by emitted Go only *)
 | LPipe | LPipeUnit | LIfElse | LIfElseUnit | LIfOnly | LOpEqual | LOpNotEqual | LOpNot
-| LNewTuple2 | LNewTuple3 | LDestr2 | LDestr3 | LSInterP.
+| LNewTuple2 | LNewTuple3 | LDestr2 | LDestr3 | LSInterP
+| LDestr.   (* frt.Destr: the obsolete name of Destr2, still emitted by tinyfo *)
 
 (** functions a MiniFo program may name in [ext] *)
 Definition src_fn (f:libfn) : bool :=
   match f with
   | LPipe | LPipeUnit | LIfElse | LIfElseUnit | LIfOnly | LOpEqual | LOpNotEqual | LOpNot
-  | LNewTuple2 | LNewTuple3 | LDestr2 | LDestr3 | LSInterP => false
+  | LNewTuple2 | LNewTuple3 | LDestr2 | LDestr3 | LSInterP | LDestr => false
   | _ => true
   end.
 
@@ -86,6 +87,7 @@ Definition libfn_name (f:libfn) : string :=
   | LOpEqual => "frt.OpEqual" | LOpNotEqual => "frt.OpNotEqual" | LOpNot => "frt.OpNot"
   | LNewTuple2 => "frt.NewTuple2" | LNewTuple3 => "frt.NewTuple3"
   | LDestr2 => "frt.Destr2" | LDestr3 => "frt.Destr3" | LSInterP => "frt.SInterP"
+  | LDestr => "frt.Destr"
   end%string.
 
 Definition all_libfns : list libfn :=
@@ -93,7 +95,7 @@ Definition all_libfns : list libfn :=
    LAppend; LIsEmpty; LIsNotEmpty; LMap; LMapi; LFilter; LIter; LFold; LForall; LForany; LSort; LZip;
    LStrLength; LStrConcat; LHasPrefix; LHasSuffix; LAppendHead; LAppendTail; LSplit; LFst; LSnd;
    LPipe; LPipeUnit; LIfElse; LIfElseUnit; LIfOnly; LOpEqual; LOpNotEqual; LOpNot;
-   LNewTuple2; LNewTuple3; LDestr2; LDestr3; LSInterP].
+   LNewTuple2; LNewTuple3; LDestr2; LDestr3; LSInterP; LDestr].
 
 Definition libfn_of_name (s:string) : option libfn :=
   find (fun f => String.eqb (libfn_name f) s) all_libfns.
